@@ -356,6 +356,8 @@ class World(EventDispatcher):
                     self.remove_handler(component)
 
             del self._entities[entity]
+            # A callback may have marked the entity again, meanwhile
+            self._dead_entities.discard(entity)
 
         self._dead_entities.clear()
 
